@@ -22,6 +22,15 @@ def mixtureMisfit (exp log : α → α) (zero : α) (w m : List α) : α :=
 def mixtureResp (exp log : α → α) (w m : List α) : List α :=
   List.zipWith (fun wi mi => exp (log wi - mi)) w m
 
+/-- the same quantities as the code computes them (log-sum-exp): with `aᵢ = log wᵢ − mᵢ` and a shift `c`
+    (the code takes `c = maxᵢ aᵢ` when that is finite, else 0), misfit = `−(c + log Σᵢ exp(aᵢ − c))` and
+    responsibilities `exp(aᵢ − c)`. Far from every component all `exp(aᵢ)` underflow, `exp(aᵢ − c)` do not. -/
+def mixtureMisfitShift (exp log : α → α) (zero c : α) (w m : List α) : α :=
+  -(c + log (sumList zero (List.zipWith (fun wi mi => exp (log wi - mi - c)) w m)))
+
+def mixtureRespShift (exp log : α → α) (c : α) (w m : List α) : List α :=
+  List.zipWith (fun wi mi => exp (log wi - mi - c)) w m
+
 /-- one coordinate of the Mixture gradient: `Σ pᵢ gᵢ / Σ pᵢ` -/
 def mixtureGrad1 (zero : α) (p g : List α) : α :=
   sumList zero (List.zipWith (· * ·) p g) / sumList zero p
